@@ -37,9 +37,11 @@ def program(kinds, edges):
             # two enumerators: fields alternate between them (first enumerator gets even positions)
             g0 = [(k, bw) for k, bw in enumerate(flds) if k % 2 == 0]
             g1 = [(k, bw) for k, bw in enumerate(flds) if k % 2 == 1]
-            def en(name, g):
-                return name + ("(%s)" % ", ".join(fld(k, b, w) for k, (b, w) in g) if g else "")
-            text.append("unchecked enum T%d { %s, %s }" % (i, en("A", g0), en("B", g1)))
+            # explicit values on neither, both, the second or the first enumerator: an enumerator's fields are contained whatever its value is
+            vals = [("", ""), (" = 1", " = 2"), ("", " = 7"), (" = 5", "")][(i + len(flds)) % 4]
+            def en(name, g, v):
+                return name + ("(%s)" % ", ".join(fld(k, b, w) for k, (b, w) in g) if g else "") + v
+            text.append("unchecked enum T%d { %s, %s }" % (i, en("A", g0, vals[0]), en("B", g1, vals[1])))
             model.append("E " + " ".join("f %d %s" % (k, WRAPPERS[w][1] % ("N %d" % b)) for k, (b, w) in g0) + " | " +
                          " ".join("f %d %s" % (k, WRAPPERS[w][1] % ("N %d" % b)) for k, (b, w) in g1))
     return "\n".join(text) + "\n", "cyc " + " / ".join(model)
